@@ -56,6 +56,10 @@ def gen_cases(tier, seed):
             pick = [c for c in cs if c.get("kind") == "phonon"][:per]
         if sub == "c06":
             pick = [c for c in cs if c.get("kind") == "roundtrip"][:per] + [c for c in cs if c.get("kind") == "ph2ph"][:3]
+        if sub == "c08":
+            gz = [c for c in cs if c.get("method") == "gonze"]
+            wg = [c for c in cs if c.get("method") == "wang"]
+            pick = gz[::max(1, len(gz) // per)][:per] + wg[::max(1, len(wg) // 3)][:3]
         if sub == "c04":
             pick = [c for c in cs if c.get("kind") in ("primitive", "primitive_explicit")][:per]
         for i, c in enumerate(pick):
@@ -178,10 +182,23 @@ def process_obs():
     return out
 
 
+def crash_policy(rec):
+    """A TSan worker that dies with TSan's exit code but without any report touching phonopy's C code died of the tool's own
+    runtime (seen sporadically, not reproducible on the same case): re-run that case instead of guessing a verdict."""
+    if rec.get("variant") == "tsan":
+        tail = rec.get("stderr_tail") or ""
+        relevant = re.search(r"/c/[a-z_]+\.c:|_phonopy\.cpp|minigomp\.c", tail) is not None
+        if not relevant:
+            return "retry"
+    return "record"
+
+
 def classify_crash(c):
     tail = c.get("stderr_tail") or ""
     kind = "crash"
-    if "AddressSanitizer" in tail:
+    if "ThreadSanitizer: data race" in tail and re.search(r"/c/[a-z_]+\.c:|_phonopy\.cpp|minigomp\.c", tail):
+        kind = "tsan_report"
+    elif "AddressSanitizer" in tail:
         kind = "asan_report"
     elif "runtime error:" in tail:
         kind = "ubsan_report"
@@ -198,7 +215,8 @@ def summarize(results, obs, tier):
     shapes = {kn: len(v) for kn, v in (obs.get("tap_shapes") or {}).items()}  # union over all worker processes (lists merged as sets)
     calls = (obs.get("tap") or {}).get("calls", {})
     missing = [k for k in exported if calls.get(k, 0) == 0]
-    few = [k for k in exported if 0 < shapes.get(k, 0) < 3 and k not in ("all_tetrahedra_relative_grid_address",)]
+    fixed_shape = ("all_tetrahedra_relative_grid_address", "tetrahedra_relative_grid_address", "tetrahedra_integration_weight")  # argument shapes are constants
+    few = [k for k in exported if 0 < shapes.get(k, 0) < 3 and k not in fixed_shape]
     if not exported:
         inc.append("kernel tap saw no exported kernels")
     if missing:
